@@ -1,7 +1,8 @@
 import CnlDriver.CS
 import CnlModel.Layered
 import CnlSpec.Rounding
-/-! `C08` table: rounding_integer operators over built-in representations. -/
+/-! `C08` table: rounding_integer operators over built-in representations; numbers with a rounding tag and an elastic
+and/or overflow layer (`nst`, `ovr`: value-level model, validated type strings). -/
 namespace Cnl.Drv
 open Cnl Cnl.Spec
 
@@ -80,6 +81,44 @@ def checkC08 (toks : List String) (res : String) : Option Verdict :=
     -- the number made carries the requested rounding mode, and its quotient is the correctly rounded one
     some { model := m, spec := some (res == m), branch := "msi/" ++ md.toString ++ "/" ++ kind,
            nontrivial := v.tmod r != 0 }
+  | ["nst", ops, mode, kind, ls, rs, l, r] => do
+    -- numbers with an elastic layer and a rounding tag (either nest order), static_integer, static_number (value-level
+    -- model: the elastic policy gives the result's digits and signedness, the value is the rounded quotient / the
+    -- truncated remainder of the operand VALUES; a built-in int / unsigned operand is lifted to 31 signed / 32 unsigned digits)
+    let op ← parseBinOp ops; let md ← parseRdMode mode; let l ← l.toInt?; let r ← r.toInt?
+    let ds : String → Option (Nat × Bool) := fun s =>
+      if s == "bi" then some (31, true) else if s == "bu" then some (32, false)
+      else (s.drop 1).toString.toNat?.map (fun d => (d, s.startsWith "s"))
+    let (dl, sl) ← ds ls; let (dr, sr) ← ds rs
+    if r == 0 then none else
+    let sg := sl || sr
+    let d ← (match op with | .div => some dl | .mod => some (min dl dr) | _ => none)
+    let v := if op == .div then roundDiv (modeOf md) l r else l.tmod r
+    let n := if sg then "i32" else "u32"
+    let w := if sg then s!"wd(31,i32)" else s!"wd(32,u32)"
+    let ty ← (match kind with
+      | "re" => some s!"rd(el({d},{n}),{md.toString})"
+      | "er" => some s!"el({d},rd({n},{md.toString}))"
+      | "si" => some s!"ov(el({d},rd({w},{md.toString})),und)"
+      | "sn" => some s!"sc(ov(el({d},rd({w},{md.toString})),und),0,2)"
+      | _ => none)
+    let m := s!"{ty}:{v}"
+    let tie := op == .div && (2 * (l.tmod r)).natAbs == r.natAbs
+    let mix := (if sl then "s" else "u") ++ (if sr then "s" else "u") ++ (if r < 0 then "/negdivisor" else "")
+    some { model := m, spec := some (res == m), branch := s!"nst/{kind}/{ops}/{md.toString}/{mix}" ++ (if tie then "/tie" else ""),
+           nontrivial := op != .div || l.tmod r != 0 }
+  | ["ovr", ops, mode, otag, nest, lt, rt, l, r] => do
+    -- overflow_integer<rounding_integer<T,RTag>,OTag> (or) / rounding_integer<overflow_integer<T,OTag>,RTag> (ro), T narrower
+    -- than int: the operation is carried out in int, where every rounded quotient is representable: no signal
+    let op ← parseBinOp ops; let md ← parseRdMode mode; let ot ← parseOvTag otag
+    let L ← parseIntTy lt; let R ← parseIntTy rt; let l ← l.toInt?; let r ← r.toInt?
+    if r == 0 || L.bits ≥ 32 || R.bits ≥ 32 then none else
+    let v ← (match op with | .div => some (roundDiv (modeOf md) l r) | .mod => some (l.tmod r) | _ => none)
+    let ty := if nest == "or" then s!"ov(rd(i32,{md.toString}),{ot.toString})" else s!"rd(ov(i32,{ot.toString}),{md.toString})"
+    let m := s!"{ty}:{v}"
+    let corner := l == L.lowest && r == -1 && L.signed
+    some { model := m, spec := some (res == m), branch := s!"ovr/{nest}/{ops}/{md.toString}/{otag}" ++ (if corner then "/lowest_by_minus1" else ""),
+           nontrivial := true }
   | ["cmp", ops, mode, lt, rt, l, r] => do
     -- comparisons behave exactly like the built-in ones (whichever operand is wrapped)
     let op ← parseCmpOp ops; let mode ← parseRdMode mode; let L ← parseIntTy lt; let R ← parseIntTy rt
